@@ -2709,24 +2709,32 @@ impl DcpsDomainParticipant {
                     data_reader
                         .transport_reader
                         .delete_matched_writer(key.into());
+                    // The writer is no longer matched: update the matched list and the status
+                    data_reader.remove_matched_publication(&InstanceHandle::new(key));
                 }
             }
         }
 
         for publisher in &mut self.domain_participant.user_defined_publisher_list {
             for data_writer in &mut publisher.data_writer_list {
-                for matched_subscription in &data_writer.matched_subscription_list {
-                    if matched_subscription.key.value[..12] == prefix {
-                        // Remove readers
-                        data_writer
-                            .writer
-                            .transport_writer
-                            .delete_matched_reader(matched_subscription.key.value.into());
-                    }
-                }
-                data_writer
+                let removed_reader_guids: Vec<_> = data_writer
                     .matched_subscription_list
-                    .retain(|subscription| subscription.key.value[..12] != prefix);
+                    .iter()
+                    .filter(|m| m.key.value[..12] == prefix)
+                    .map(|m| m.key.value)
+                    .collect();
+                for key in removed_reader_guids {
+                    // Remove readers
+                    data_writer
+                        .writer
+                        .transport_writer
+                        .delete_matched_reader(key.into());
+                    // The reader is no longer matched: update the matched list and the status
+                    data_writer.remove_matched_subscription(&InstanceHandle::new(key));
+                    data_writer
+                        .status_condition
+                        .add_communication_state(StatusKind::PublicationMatched);
+                }
                 data_writer.notify_acknowledged_waiters();
             }
         }
